@@ -687,6 +687,22 @@ def ratio_guards(F, R):
                                 zb = zero_branch[1] if zero_branch[0] == 'some' else zero_branch
                                 ok = zb == lit(100.0)
                                 detail = 'reports 100 exactly when the loss aggregate is (at most) 0, divides by it otherwise' if ok else 'zero-loss branch reports %s, not 100' % tstr(zb)[:40]
+                                # ... and in EVERY case: any reported value other than 100 needs L > 0 on its path
+                                from .terms import relation as _rel
+                                try:
+                                    for conds_, leaf_ in cases(t):
+                                        lv = leaf_[1] if leaf_[0] == 'some' else leaf_
+                                        if leaf_[0] in ('none',) or lv == lit(100.0) or leaf_ == ('in', cell) or (leaf_[0] == 'in'):
+                                            continue
+                                        if not fl.delivering(conds_):
+                                            continue
+                                        divs_ = {y[2][1] for y in subterms(lv) if y[0] == 'op' and y[1] == 'div' and len(y[2]) == 2}
+                                        pos = any((_rel(c_, D_, lit(0.0)) or {'<', '=', '>'}) <= {'>'} for c_ in conds_ for D_ in divs_)
+                                        if ok and not pos:
+                                            ok = False
+                                            detail = 'a value other than 100 (%s) is reported on a path that does not exclude a zero loss aggregate' % tstr(lv)[:40]
+                                except OverflowError:
+                                    pass
                             else:
                                 ok = (zero_branch == ('in', cell) or zero_branch == ('some', ('in', cell))) and c[1] in ('eq', 'ne')
                                 detail = 'ratio formed only when cu+cd != 0, previous output held otherwise' if ok else 'flat-window branch is %s, not a hold' % tstr(zero_branch)[:40]
